@@ -1,6 +1,7 @@
 import Utv.GenEq.Support
 import Utv.Gen.Field
 import Utv.Gen.Options
+import Utv.Gen.Parse
 import Utv.Model.C11
 /-!
 C11 — T1 obligations: `Req.holds` / `RunOpts.ignoresRequired` (what `FieldDecl.resolveR` takes a field's `required` to
@@ -50,5 +51,155 @@ theorem C11_gen_options_init (W : Obj.World α) (self : OVal α) (r : RunOpts Ch
     cases fd <;>
       obj_simp [Options.Options_init, Options.multi, lookupAttr, isinstance, callable, OVal.isUnprovided, OVal.isNone,
         getattr, encOptVal, RunOpts.ignoresRequired]
+
+/-! ### `ParserField.parse_value`: on_error policy × required × EXCLUDED (the conversion is the world's) -/
+
+variable {κ : Type}
+
+def encPolicy : Policy → OVal α
+  | .throw => .str "throw"
+  | .exclude => .str "exclude"
+  | .preserve => .str "preserve"
+
+/-- the `ParserField` a resolved `Field` stands for (`required` / `default` are already those of this parse; C11's
+fragment: a type is declared, no discriminator, not deprecated); `nm` is its name, whatever it is -/
+def encPField (f : Field κ α) (nm : OVal α) : OVal α :=
+  .obj "ParserField" [
+    ("field", .obj "Field" [("deprecated", .bool false)]), ("deprecated_to", .none),
+    ("type", .cls 0), ("discriminator_map", .none), ("name", nm), ("EXCLUDED", .obj "Excluded" []),
+    ("on_error", match f.onError with | none => .none | some p => encPolicy p),
+    ("required", .bool f.required), ("default", encOptVal f.default), ("default_factory", .none),
+    ("defer_default", .bool false), ("no_input", .bool false), ("mode", .none), ("final", .bool false)]
+
+/-- the options of a fail-fast parse with `invalid_values = inv` -/
+def encRunOptions (inv : Policy) : OVal α :=
+  .obj "Options" [
+    ("EXCLUDE", .str "exclude"), ("PRESERVE", .str "preserve"), ("invalid_values", encPolicy inv),
+    ("ignore_required", .bool false), ("mode", .none), ("no_default", .bool false), ("defer_default", .bool false),
+    ("force_default", .unprovided), ("collect_errors", .bool false), ("max_errors", .none)]
+
+/-- a fail-fast context that has collected nothing yet -/
+def encContext (inv : Policy) : OVal α :=
+  .obj "RuntimeContext" [("errors", .seq .list []), ("tmp_errors", .seq .list []), ("options", encRunOptions inv)]
+
+/-- entering the field's sub-context and converting there is the model's `f.parse`; `copy_value` hands its argument on -/
+structure WorldOk (W : Obj.World α) (f : Field κ α) (nm ctx : OVal α) : Prop where
+  enter : W.ext "enter" [ctx, nm, .none] = .ok (.obj "RuntimeContext" [("transformer", .fn 0)])
+  conv : ∀ x, W.call (.fn 0) [.val x, .cls 0] =
+    match f.parse x with
+    | some y => .ok (.val y)
+    | none => .error .typeError
+  copy : ∀ v, W.ext "copy_value" [v] = .ok v
+
+/-- what the caller sees: a value, `unprovided` (or the EXCLUDED marker), or the error `handle_error` raised -/
+def decodeOut : OVal α × Outcome α → FieldOut α
+  | (_, .ret (.val v)) => .value v
+  | (_, .ret _) => .unprovided
+  | (_, .raise _) => .raise
+
+macro "pv_simp" "[" ls:Lean.Parser.Tactic.simpLemma,* "]" : tactic =>
+  `(tactic| obj_simp [Parse.parse_value, Options.handle_error, Field.get_on_error, Field.is_required, Field.get_default,
+      Field.always_no_input, Field.no_default, encPField, encContext, encRunOptions, encPolicy, encOptVal, getattr, setattr,
+      lookupAttr, setAttrL, append, isinstance, OVal.isNone, OVal.isTrue, OVal.isUnprovided, eq, eqS, decodeOut, Except.map,
+      tryCatch, tryCatchThe, MonadExceptOf.tryCatch, Except.tryCatch, Exc.isA, Field.policy, $ls,*])
+
+theorem C11_gen_parse_value (W : Obj.World α) (inv : Policy) (f : Field κ α) (nm : OVal α) (x : α)
+    (hw : WorldOk W f nm (encContext inv)) :
+    (Parse.parse_value W (encPField f nm) (.val x) (encContext inv) (.bool false)).map decodeOut
+      = .ok (parseValue inv f x) := by
+  gen_obligation "C11_gen_parse_value: the regenerated code (Utv.Gen) is no longer equal to the hand model here" by
+    obtain ⟨name, required, default, onError, deps, parse⟩ := f
+    have hc := hw.conv x
+    have he := hw.enter
+    simp only at hc
+    cases hp : parse x with
+    | some y =>
+      rw [hp] at hc
+      cases inv <;> simp only [encContext, encRunOptions, encPolicy] at he <;> pv_simp [he, hc, parseValue, hp] <;> rfl
+    | none =>
+      rw [hp] at hc
+      cases onError with
+      | none =>
+        cases inv <;> simp only [encContext, encRunOptions, encPolicy] at he <;> cases required <;> cases default <;>
+          pv_simp [he, hc, parseValue, hp, hw.copy] <;> rfl
+      | some p =>
+        cases inv <;> simp only [encContext, encRunOptions, encPolicy] at he <;> cases p <;> cases required <;>
+          cases default <;> pv_simp [he, hc, parseValue, hp, hw.copy] <;> rfl
+
+/-- … and as the data loops call it (`excluded_as_absent=True`): a value the 'exclude' policy drops comes back as the
+`EXCLUDED` marker (the model's `.unprovided`) whether or not a default exists -/
+theorem C11_gen_parse_value_abs (W : Obj.World α) (inv : Policy) (f : Field κ α) (nm : OVal α) (x : α)
+    (hw : WorldOk W f nm (encContext inv)) :
+    (Parse.parse_value W (encPField f nm) (.val x) (encContext inv) (.bool true)).map decodeOut
+      = .ok (parseValueAbs inv f x) := by
+  gen_obligation "C11_gen_parse_value_abs: the regenerated code (Utv.Gen) is no longer equal to the hand model here" by
+    obtain ⟨name, required, default, onError, deps, parse⟩ := f
+    have hc := hw.conv x
+    have he := hw.enter
+    simp only at hc
+    cases hp : parse x with
+    | some y =>
+      rw [hp] at hc
+      cases inv <;> simp only [encContext, encRunOptions, encPolicy] at he <;> pv_simp [he, hc, parseValueAbs, hp] <;> rfl
+    | none =>
+      rw [hp] at hc
+      cases onError with
+      | none =>
+        cases inv <;> simp only [encContext, encRunOptions, encPolicy] at he <;> cases required <;> cases default <;>
+          pv_simp [he, hc, parseValueAbs, hp, hw.copy] <;> rfl
+      | some p =>
+        cases inv <;> simp only [encContext, encRunOptions, encPolicy] at he <;> cases p <;> cases required <;>
+          cases default <;> pv_simp [he, hc, parseValueAbs, hp, hw.copy] <;> rfl
+
+/-! ### `BaseParser.parse_addition` -/
+
+/-- the parser as `parse_addition` reads it: nothing excluded, an addition type only for `typed` -/
+def encParser (a : Addition α) : OVal α :=
+  .obj "ClassParser" [("exclude_vars", .seq .list []),
+    ("addition_type", match a with | .typed _ => .cls 0 | _ => .none)]
+
+def encAddOpt : Addition α → OVal α
+  | .ignore => .none
+  | .forbid => .bool false
+  | _ => .bool true
+
+/-- a fail-fast context with `invalid_values = inv` and `addition` as the model's -/
+def encAddContext (inv : Policy) (a : Addition α) : OVal α :=
+  .obj "RuntimeContext" [("errors", .seq .list []), ("tmp_errors", .seq .list []),
+    ("options", .obj "Options" [("EXCLUDE", .str "exclude"), ("PRESERVE", .str "preserve"),
+      ("invalid_values", encPolicy inv), ("addition", encAddOpt a), ("collect_errors", .bool false),
+      ("max_errors", .none)])]
+
+structure AddWorldOk (W : Obj.World α) (a : Addition α) (key ctx : OVal α) : Prop where
+  enter : W.ext "enter" [ctx, key, .none] = .ok (.obj "RuntimeContext" [("transformer", .fn 0)])
+  conv : ∀ p x, a = .typed p → W.call (.fn 0) [.val x, .cls 0] =
+    match p x with
+    | some y => .ok (.val y)
+    | none => .error .typeError
+
+def decodeAdd : OVal α × Outcome α → AddOut α
+  | (_, .ret (.val v)) => .value v
+  | (_, .ret _) => .unprovided
+  | (_, .raise (.obj "ExceedError" _)) => .exceed
+  | (_, .raise _) => .raise
+
+theorem C11_gen_parse_addition (W : Obj.World α) (inv : Policy) (a : Addition α) (key : OVal α) (x : α)
+    (hw : AddWorldOk W a key (encAddContext inv a)) :
+    (Parse.parse_addition W (encParser a) key (.val x) (encAddContext inv a)).map decodeAdd
+      = .ok (parseAddition inv a x) := by
+  gen_obligation "C11_gen_parse_addition: the regenerated code (Utv.Gen) is no longer equal to the hand model here" by
+    have he := hw.enter
+    cases a with
+    | typed p =>
+      have hc := hw.conv p x rfl
+      cases hp : p x <;> rw [hp] at hc <;> cases inv <;>
+        simp only [encAddContext, encPolicy, encAddOpt] at he <;>
+        obj_simp [Parse.parse_addition, Options.handle_error, encParser, encAddContext, encAddOpt, encPolicy, getattr, setattr,
+          lookupAttr, setAttrL, append, contains, memS, OVal.isFalse, he, hc, eq, eqS, decodeAdd, Except.map, parseAddition, hp,
+          tryCatch, tryCatchThe, MonadExceptOf.tryCatch, Except.tryCatch, Exc.isA] <;> rfl
+    | _ =>
+      cases inv <;>
+        obj_simp [Parse.parse_addition, Options.handle_error, encParser, encAddContext, encAddOpt, encPolicy, getattr, setattr,
+          lookupAttr, setAttrL, append, contains, memS, OVal.isFalse, decodeAdd, Except.map, parseAddition]
 
 end Utv.GenEq.C11
